@@ -400,6 +400,155 @@ def _edge_conditions(f, bid):
     return out
 
 
+def _edge_condition_nodes(f, bid):
+    """like _edge_conditions, but the atoms as expression nodes: [(node, polarity)]"""
+    from lib.loops import dominators
+    dom, _p = dominators(f)
+    blocks = {b["id"]: b for b in f["blocks"]}
+    preds = {}
+    for b in f["blocks"]:
+        for e in b["succ"]:
+            if not e.get("pruned"):
+                preds.setdefault(e["to"], []).append(b["id"])
+    inits = C.single_inits(f)
+    out = []
+    for d in dom.get(bid, ()):
+        db = blocks[d]
+        c = C.term_cond(db)
+        succ = [e for e in db["succ"] if not e.get("pruned") and e.get("when") in ("true", "false")]
+        if c is None or len(succ) != 2 or d == bid:
+            continue
+        for e in succ:
+            other = [x["to"] for x in succ if x is not e][0]
+            if e["to"] in dom.get(bid, ()) and other not in dom.get(bid, ()) and len(preds.get(e["to"], [])) == 1:
+                def emit(x, pol):
+                    x = X.strip(x)
+                    while isinstance(x, dict) and x.get("k") == "un" and x.get("op") == "!":
+                        pol = not pol
+                        x = X.strip(x["e"])
+                    if isinstance(x, dict) and x.get("k") == "bin" and ((x.get("op") == "&&" and pol) or (x.get("op") == "||" and not pol)):
+                        emit(x["l"], pol)
+                        emit(x["r"], pol)
+                        return
+                    if isinstance(x, dict) and x.get("k") == "ref" and x.get("kind") == "local" and x.get("id") in inits and \
+                            (x.get("ty") or "").replace("const ", "") == "bool":
+                        emit(inits[x["id"]], pol)
+                        return
+                    out.append((x, pol))
+                emit(c, e["when"] == "true")
+    return out
+
+
+def _enum_cmp(x):
+    """(path of the compared value, enumerator value, is-equality) for `v == ENUMERATOR` / `v != ENUMERATOR`"""
+    if not (isinstance(x, dict) and x.get("k") == "bin" and x.get("op") in ("==", "!=")):
+        return None
+    for a, b in ((x["l"], x["r"]), (x["r"], x["l"])):
+        b0 = X.strip(b)
+        if isinstance(b0, dict) and b0.get("k") == "ref" and b0.get("kind") == "enumerator" and "cv" in b0:
+            p = X.path(a)
+            if p:
+                return p, b0["cv"], x["op"] == "==", b0.get("name")
+    return None
+
+
+def check_dead_scheme_tests(ctx, fx, rule):
+    """The scheme parsers of both types have a fast arm (the input as given is a special scheme) and a slow arm (anything else:
+    the input is lower-cased into a buffer first).  In the slow arm the scheme type computed from the RAW input is known to
+    be NOT_SPECIAL -- that is how the arm was chosen -- so a test of that variable against any other enumerator there can
+    never be true: a refusal written that way ("buffer is file" tested on the raw input's type) is dead, and `File` with
+    credentials is accepted.  Reported: a comparison `v == E` (or `v != E`) in a branch condition, reached only through an edge
+    that establishes `v == E'` for a different enumerator E', with v a local that is never written again."""
+    n = 0
+    for q in ("ada::url::parse_scheme", "ada::url_aggregator::parse_scheme_with_colon"):
+        for f in fx.fns(q):
+            inits = C.single_inits(f)
+            for b in f["blocks"]:
+                c = C.term_cond(b)
+                if c is None:
+                    continue
+                atoms = [m for m in X.walk(c) if _enum_cmp(m) is not None]
+                if not atoms:
+                    continue
+                known = {}
+                for nd, pol in _edge_condition_nodes(f, b["id"]):
+                    ec = _enum_cmp(nd)
+                    if ec is None:
+                        continue
+                    pth, val, iseq, nm = ec
+                    if iseq == pol:                         # v == E holds
+                        known[pth] = (val, nm)
+                for a in atoms:
+                    pth, val, iseq, nm = _enum_cmp(a)
+                    root = X.strip(a["l"]) if X.path(a["l"]) == pth else X.strip(a["r"])
+                    single = isinstance(root, dict) and root.get("k") == "ref" and root.get("kind") == "local" and root.get("id") in inits
+                    n += 1
+                    dead = single and pth in known and known[pth][0] != val
+                    ctx.check(rule, "%s: `%s` can be true" % (f["key"].split("(")[0], X.show(a)[:60]), not dead, "not decided by the arm's own entry condition",
+                              "`%s` is tested where `%s == %s` is already known (the arm is entered only then, and the variable is never written "
+                              "again): the test is always %s, so the refusal it guards never fires -- in the slow arm the scheme must be "
+                              "judged on the lower-cased buffer" % (X.show(a)[:60], X.show(root), known.get(pth, (0, "?"))[1], "false" if iseq else "true"),
+                              where=(b["term"].get("loc") or f["loc"]).replace("/repo/", ""))
+    ctx.floor(rule, n, 6, "scheme-type comparisons in the scheme parsers")
+
+
+def check_loop_verdicts(ctx, fx, rule, select, floor):
+    """A verdict about a whole scan is accumulated over the loop: a bool local that is `true` before the loop and assigned inside
+    it may only be narrowed there (`&=`, `= false`, `= flag && ...`), one that is `false` only widened (`|=`, `= true`,
+    `= flag || ...`).  A plain `flag = <condition>` makes the LAST iteration's condition the verdict and forgets the earlier ones
+    ("/a/../b/.well-known": the dot segment is forgotten because a dot-file follows) -- unless the loop looks at the flag itself
+    and leaves (the first failure ends the scan)."""
+    from lib import loops as L
+    n = 0
+    for f in fx.functions:
+        if not C.first_party(f) or not f.get("blocks") or not select(f):
+            continue
+        lits = {}
+        for b in f["blocks"]:
+            for st in b["stmts"]:
+                if st["k"] == "decl":
+                    for v in st["vars"]:
+                        i0 = X.strip(v["init"]) if v.get("init") is not None else None
+                        if (v.get("ty") or "") == "bool" and isinstance(i0, dict) and i0.get("k") == "lit" and X.const_val(i0) in (True, False, 0, 1):
+                            lits[v["id"]] = (v["name"], bool(X.const_val(i0)), b["id"])
+        if not lits:
+            continue
+        blk = {b["id"]: b for b in f["blocks"]}
+        for h, body, latches in L.natural_loops(f):
+            tested = set()
+            for bid in body:
+                c = C.term_cond(blk[bid])
+                if c is not None:
+                    tested |= {m.get("id") for m in X.walk(c) if m.get("k") == "ref"}
+            for bid in body:
+                for st in blk[bid]["stmts"]:
+                    for nd in X.stmt_nodes(st, local=True):
+                        if nd.get("k") != "assign":
+                            continue
+                        l0 = X.strip(nd["lhs"])
+                        if not (isinstance(l0, dict) and l0.get("k") == "ref" and l0.get("id") in lits) or lits[l0["id"]][2] in body:
+                            continue
+                        nm, start, _b = lits[l0["id"]]
+                        op, rhs = nd.get("op"), X.strip(nd["rhs"])
+                        lit = X.const_val(rhs) if isinstance(rhs, dict) and rhs.get("k") == "lit" else None
+                        mentions_self = any(m.get("k") == "ref" and m.get("id") == l0["id"] for m in X.walk(nd["rhs"]))
+                        if start:
+                            ok = op == "&=" or (op == "=" and lit is not None and not lit) or \
+                                (op == "=" and mentions_self and rhs.get("k") == "bin" and rhs.get("op") in ("&&", "&"))
+                        else:
+                            ok = op == "|=" or (op == "=" and lit is not None and bool(lit)) or \
+                                (op == "=" and mentions_self and rhs.get("k") == "bin" and rhs.get("op") in ("||", "|"))
+                        ok = ok or l0["id"] in tested
+                        n += 1
+                        ctx.check(rule, "%s: `%s` is only %s inside its loop" % (f["qname"], nm, "narrowed" if start else "widened"), ok,
+                                  "%s %s" % (nm, op),
+                                  "`%s %s %s` inside the loop: `%s` starts as %s and stands for the verdict about the whole scan, but this "
+                                  "assignment replaces what the earlier iterations found with the current one's condition"
+                                  % (nm, op, X.show(nd["rhs"])[:60], nm, "true" if start else "false"),
+                                  where=(st.get("loc") or f["loc"]).replace("/repo/", ""))
+    ctx.floor(rule, n, floor, "verdict flags accumulated over a loop")
+
+
 def check_drive_letter_callers(ctx, fx, rule):
     """T6b.  "starts with a Windows drive letter" looks at a THIRD code point (end of input or one of / \\ ? #), so its
     argument must be the whole remaining input: a view cut to two bytes turns "/C:foo" into a drive letter."""
@@ -489,6 +638,72 @@ def check_dash_dot_guard(ctx, fx, rule):
                               % (f["qname"], "; ".join("%s%s" % ("" if pol else "!", t[:50]) for t, pol in conds)),
                               where=(st.get("loc") or f["loc"]).replace("/repo/", ""))
     ctx.floor(rule, n, 1, "insertions of the \"/.\" guard")
+
+
+def _removes_dash_dot(fx, g, depth=2, seen=frozenset()):
+    """g contains a statement that takes the "/." guard out of the buffer: delete_dash_dot(), or buffer.erase(host_end, 2),
+    directly or in a url_aggregator member it calls"""
+    for nd, st, b in C.all_nodes(g):
+        if nd.get("k") != "call":
+            continue
+        q = nd.get("qname") or ""
+        if q == "ada::url_aggregator::delete_dash_dot":
+            return True
+        if nd.get("name") == "erase" and nd.get("recv") is not None and X.path(nd["recv"]) == "this.buffer" and len(nd.get("args", [])) >= 2 \
+                and X.const_val(nd["args"][1]) == 2 and "host_end" in X.show(nd["args"][0]):
+            return True
+        if q.startswith("ada::url_aggregator::") and depth > 0 and q not in seen:
+            for h in fx.fns(q, must=False):
+                if h.get("blocks") and _removes_dash_dot(fx, h, depth - 1, seen | {q}):
+                    return True
+    return False
+
+
+def check_dash_dot_removed(ctx, fx, rule):
+    """The "/." guard sits in the buffer between host_end and pathname_start and is no component's text: it exists only while the
+    path starts with "//" and there is no host.  The pathname setter replaces the path: on every way from its entry to the
+    point where the new path is parsed in, something must have taken an existing guard out (clear_pathname does; so would a
+    direct delete_dash_dot()), otherwise the trivial-path shortcut appends the new path behind the stale two bytes and the href
+    ("non-spec:/./x") no longer re-parses to itself."""
+    f = fx.fn1("ada::url_aggregator::set_pathname")
+    blk = {b["id"]: b for b in f["blocks"]}
+    targets, cut = set(), set()
+    for b in f["blocks"]:
+        for st in b["stmts"]:
+            for nd in X.stmt_nodes(st, local=True):
+                if nd.get("k") != "call":
+                    continue
+                q = nd.get("qname") or ""
+                if q in ("ada::url_aggregator::parse_path", "ada::url_aggregator::consume_prepared_path", "ada::url_aggregator::update_base_pathname"):
+                    targets.add(b["id"])
+                elif q == "ada::url_aggregator::delete_dash_dot" or \
+                        (q.startswith("ada::url_aggregator::") and any(h.get("blocks") and _removes_dash_dot(fx, h) for h in fx.fns(q, must=False))):
+                    cut.add(b["id"])
+                elif nd.get("name") == "erase" and nd.get("recv") is not None and X.path(nd["recv"]) == "this.buffer" and \
+                        len(nd.get("args", [])) >= 2 and X.const_val(nd["args"][1]) == 2 and "host_end" in X.show(nd["args"][0]):
+                    cut.add(b["id"])
+    if not targets:
+        ctx.broken("%s: url_aggregator::set_pathname no longer calls parse_path (where the new path is written)" % rule)
+    # (a block that both removes and parses does so in statement order: removal first is what the tree has; keep it simple
+    #  and require the removal in an earlier block or the same block)
+    seen, stack, reached = set(), [f["entry"]], False
+    while stack:
+        x = stack.pop()
+        if x in seen:
+            continue
+        seen.add(x)
+        if x in cut:
+            continue
+        if x in targets:
+            reached = True
+            break
+        stack += [e["to"] for e in blk[x]["succ"] if not e.get("pruned")]
+    ctx.check(rule, "url_aggregator::set_pathname: an existing \"/.\" guard is removed before the new path is written", not reached,
+              "every path passes clear_pathname / delete_dash_dot",
+              "there is a path through url_aggregator::set_pathname to the point where the new path is parsed in on which nothing has "
+              "removed an existing \"/.\" guard (neither clear_pathname nor anything it calls erases the two bytes at host_end any more): "
+              "the bytes stay in the buffer in front of the new path", where=f["loc"].replace("/repo/", ""))
+    ctx.floor(rule, 1, 1, "pathname setter")
 
 
 def check_setter_empty_path(ctx, fx, rule):
